@@ -58,6 +58,17 @@ for sid in sys.argv[1:]:
                       "two calls are made in the other order than usual. Earlier rounds already used: static / class-level caches, "
                       "path spellings (relative, trailing slash, symlinks, long, containing 'tmp.'), float-valued rates, kept "
                       "exceptions, closed writers, leftover tmp files, several writers or readers per process.\n\n")
+    if sid[3:] >= "k":
+        WAVE_NOTE += ("THIS ROUND: make the failure need a LONGER or RICHER history than a first look would try -- the third "
+                      "session of a channel, the fifth file, a gap followed by an exact-fill write, a read that spans three files "
+                      "and a subdirectory edge, a metadata read after two writers took turns, a listing of a tree that holds "
+                      "nested channels and look-alike names, a mirror or ring buffer that has already expired something -- or a "
+                      "COMBINATION of options that are each common (continuous x compression x checksum x several subchannels x "
+                      "complex integer types x marching periods; reverse x window x include flags; size + count + duration "
+                      "limits at once), or DATA-dependent paths (NaN, -0.0, the most negative integer, big-endian or otherwise "
+                      "non-native arrays, bool, zero-length or one-sample writes, unicode / bytes / empty strings and arrays in "
+                      "metadata, unsorted or duplicated sample lists). Earlier rounds already used everything listed in the "
+                      "previous paragraphs; a change that needs only one of those again is not interesting.\n\n")
     txt = txt.replace("DELIVERABLES, all inside", WAVE_NOTE + "DELIVERABLES, all inside", 1) if WAVE_NOTE else txt
     if prev:
         div = ("DIVERSITY: other engineers already seeded these changes for the same property — " + "; ".join('"%s"' % s for s in prev) +
